@@ -10,6 +10,16 @@ E3 = 'TLC model checking of a TLA+ model generated from the documented tables, w
 
 # pid -> (engine, technique, level text, note, design_ref)
 CHECKS = {
+    'C07': ('E2', E2,
+            'Breadth-first search over chains (depth 4/5) of 14 plane kinds (default, pupils with different focal lengths, segmented '
+            'with overlapping bounding boxes, scalar amplitude with a mask, OPD-only, smaller array, tilt, image, inconsistent pixel '
+            'scale, fit_tilt-ed variants) and two propagations from two initial wavefronts. The model state is a dense complex array '
+            'plus metadata and steps by the pointwise phasor rule / the reference Fraunhofer sum; in every reached state: field = '
+            'model, field = sum of its Fields, intensity = |field|^2 sample by sample (also where several displaced Fields overlap), '
+            'insert with 3 weights into zero / prefilled / larger targets adds weight*intensity and nothing else, wavelength, focal '
+            'length, pixel scale, refusal of inconsistent pixel scales with unchanged operands.',
+            'Trusted: numpy; fit_tilt residual read back (C04 decides it); ptype table per docs (C08 decides it); histories longer than the depth bound are outside.',
+            'DESIGN.md section 4 C07'),
     'C05': ('E1', E1,
             'Every commensurate sampling with independent per-axis periods N in {n..n+4}, oversample factors dividing N, both '
             'propagators: total intensity equals the input power to 1e-10; for every DFT configuration every centred window a x b '
